@@ -340,7 +340,8 @@ func (g *rgen) stmts(d int, max int) string {
 	return sb.String()
 }
 
-// must-pass inputs of repaired findings (C13-D1, fixed by 6d63f64; C13-D7, fixed by ac301ad): identifiers that are
+// must-pass inputs of repaired findings (C13-D1 6d63f64, C13-D7 ac301ad, C13-D5 3eb6e21, C13-D9 0ea428f, C13-D2c 7286f4e,
+// C13-D2a/D2f cfb4151, C13-D2e 9099367, C13-D3g 20d53e9).  C13-D1: identifiers that are
 // printed with a \u{...} escape followed by a word, under minify-whitespace + ascii
 var mustPassCorpus = []string{
 	"var \U00010000; \U00010000 in x", "import {\U00010000 as x} from 'p'", "import * as \U00010000 from 'p'; \U00010000", "export * as \U00010000 from 'p'",
@@ -351,6 +352,17 @@ var mustPassCorpus = []string{
 	"x => { (let)[x] }", "(let)[x].y++", "(let)[x]()", "for ((let)[x] of y);", "a = (let)[x]", "(let)?.[x]",
 	// C13-D5 (fixed by 3eb6e21): function declaration in an if/label body inside "with"
 	"function f(){ with (x) if (a) function g(){} }", "function f(){ with (x) { if (a) function g(){} else function h(){} } }", "function f(){ with (x) L: function g(){} }",
+	// C13-D9 (fixed by 0ea428f): a postfix ++/-- followed by a line break ends the statement
+	"a++\n[]", "a++\n[0]", "a++\n(0)", "a--\n[b]", "a++\n`t`", "x = a++\n[0]", "a++\n++b", "if (a) b++\n[c]", "function f(){ a++\n(b) }", "a\n++\n[b]",
+	// C13-D2c (fixed by 7286f4e): nothing but a comma continues a yield that ends its line
+	"function* f(){yield\n/x/}", "function* f(){yield\n/x/g.test(y)}", "function* f(){ x = yield\n/x/ }", "function* f(){yield\n[a]}", "function* f(){yield\n(a)}", "function* f(){yield\n+a}", "function* f(){yield\n,a}",
+	// C13-D2a / C13-D2f (fixed by cfb4151): let => x and using => x at the start of a statement
+	"let => 1", "using => 1", "(let) => 1", "(using) => 1", "if (a) let => 1", "if (a) using => 1; else using => 2", "x = let => 1", "x = using => using", "using\n=> 1", "function f(){ let => 1 }", "() => { using => 1 }",
+	// C13-D2e (fixed by 9099367): yield is an identifier outside generators
+	"function f(){ for (yield of x); }", "for (yield of x);", "function f(){ for (yield in x); }", "function f(){ for (yield.a of x); }", "function f(){ for ((yield) of x); }", "for (yield = 0;;) break",
+	// C13-D3g (fixed by 20d53e9): a keyword cannot be a shorthand property of a binding pattern or object literal
+	// (these must be rejected; if esbuild accepts one again, its output is rejected by node and the lenient-acceptance rule reports it)
+	"var {import} = x", "var {if} = x", "let {new} = x", "({import} = x)", "x = {import}", "function f({typeof}){}", "({if}) => 1", "for (var {in} of x);", "var {a, import} = x", "var {a: {if}} = x",
 }
 
 var boundaryCorpus = []string{
@@ -494,14 +506,12 @@ var (
 	reNoInit          = regexp.MustCompile(`\b(let|var)\s*[\[{]`)
 	reBadTarget       = regexp.MustCompile(`(\+\+|--)\s*\(*[\[{]|[\]}]\)*\s*(\+\+|--|(\*\*|<<|>>>?|&&|\|\||\?\?|[-+*/%&|^])=)`)
 	reLetLet          = regexp.MustCompile(`\b(let|const)\b[^;]*\blet\b`)
-	reLetArrowStmt    = regexp.MustCompile(`(^|[;{}\n):])\s*let\s*=>`)
 	reStaticBlock     = regexp.MustCompile(`\bstatic\s*\{`)
 	reOctalish        = regexp.MustCompile(`\\[0-9]|(^|[^\w.$\\])0[0-9]`)
 	reAsyncArrowAwait = regexp.MustCompile(`async\s*\(?[^)=]*\bawait\b[^)=]*\)?\s*=>`)
 	reExportStarEval  = regexp.MustCompile(`export\s*\*\s*as\s*(eval|arguments)\b`)
 	reClassCode       = regexp.MustCompile(`\bclass\b`)
 	reCatchPattern    = regexp.MustCompile(`catch\s*\(\s*[\[{]`)
-	rePostfixNewline  = regexp.MustCompile("(\\+\\+|--)[ \t]*\n\\s*[\\[(`]")
 	reReexportBinding = regexp.MustCompile(`export\s*\{[^}]*\}\s*from|export\s*\*\s*as|import\s*\*\s*as\s*(eval|arguments)\b|import\s*\{[^}]*\b(eval|arguments)\b`)
 	reInfStmt         = regexp.MustCompile(`(Infinity|NaN)\s*(;|\}|$)`)
 )
@@ -529,22 +539,12 @@ func knownRejection(c *glueCase, goal string) string {
 		// B.3.4 allows "var e" to redeclare only a simple catch parameter; for a pattern it is an
 		// early error, which V8 forgets inside class static blocks (it reports it everywhere else)
 		return "var redeclaring a destructured catch parameter inside a class static block: early error per ECMA-262, accepted by V8 only"
-	case strings.Contains(e, "Cannot use \"yield\" outside a generator function"):
-		return "recurrence of known finding C13-D2e: `yield` as an identifier (sloppy, non-generator) rejected in some positions, e.g. `for (yield of x);`"
-	case regexp.MustCompile(`(^|[;{}\n):])\s*\(?using\)?\s*=>`).MatchString(c.src) && strings.Contains(e, "\"=>\""):
-		return "recurrence of known finding C13-D2f: statement `using => 1` rejected"
-	case rePostfixNewline.MatchString(c.src):
-		return "recurrence of known finding C13-D9: postfix ++/-- followed by a line break and [ ( or a template is continued as a member/call expression instead of ending the statement (ASI)"
 	case strings.Contains(e, "Top-level await is currently not supported"):
 		return "top-level await with cjs/iife output (documented esbuild restriction)"
 	case e == "Invalid assignment target" && (strings.HasSuffix(stripComments(c.mark1), ")") || strings.HasSuffix(stripComments(c.mark1), "`")):
 		return "call expression as assignment target: early error in ECMA-262 and esbuild, run-time ReferenceError in V8 (web compatibility)"
-	case reLetArrowStmt.MatchString(c.src) && strings.Contains(e, "\"=>\""):
-		return "recurrence of known finding C13-D2: statement `let => 1` (sloppy mode) rejected"
 	case strings.Contains(e, "An async function cannot be named \"await\""):
 		return "recurrence of known finding C13-D2b: `async function await(){}` rejected where await is an identifier (sloppy, non-async context)"
-	case strings.Contains(c.src, "yield") && regexp.MustCompile(`yield\s*\n\s*/`).MatchString(c.src):
-		return "recurrence of known finding C13-D2c: yield, line break, regular expression rejected"
 	case reNewerSyntax.MatchString(c.src):
 		return "syntax newer than node 20 involved"
 	}
@@ -558,9 +558,6 @@ func knownNotFixed(c *glueCase) string {
 	}
 	if strings.Contains(c.err2, "Cannot use \"let\" as an identifier here") && reLetLet.MatchString(c.out1) {
 		return "recurrence of known finding C13-D3c: `let` as a lexically bound name accepted"
-	}
-	if strings.Contains(c.err2, "\"=>\"") && regexp.MustCompile(`(^|[;{}\n):])\s*using\s*=>`).MatchString(c.out1) {
-		return "recurrence of known finding C13-D2f: statement `using => 1` rejected"
 	}
 	if c.err2 == "" && strings.Contains(c.out1, "\\u{") && strings.Contains(c.out2, "\\uD") {
 		return "recurrence of known finding C13-D4d: a string statement that becomes a directive keeps its \\u{...} escape on the first pass and is re-escaped as a surrogate pair on the second"
@@ -615,8 +612,6 @@ func knownLenient(c *glueCase, nodeErrScript, nodeErrModule, nodeErrOut string) 
 		return "regular expression bodies are not validated by esbuild (documented)"
 	case strings.Contains(nodeErrOut, "Missing initializer in destructuring declaration") && reNoInit.MatchString(c.out1):
 		return "recurrence of known finding C13-D3a: destructuring declaration without initializer accepted"
-	case regexp.MustCompile(`\{[^{}]*\b(import|if|in|new|do|for|var|case|else|this|null|true|void|with|enum|break|catch|class|const|false|super|throw|while|delete|export|return|switch|typeof|default|extends|finally|continue|debugger|function|instanceof)\s*[,}]`).MatchString(c.out1) && (strings.Contains(nodeErrOut, "Unexpected token") || strings.Contains(nodeErrOut, "reserved word") || strings.Contains(nodeErrOut, "Unexpected strict")):
-		return "recurrence of known finding C13-D3g: reserved word as shorthand property in a binding pattern or object literal accepted"
 	case reReexportBinding.MatchString(c.src):
 		return "recurrence of known finding C13-D6: `export * as eval/arguments` becomes a binding named eval/arguments in strict code"
 	case reBadTarget.MatchString(c.out1):
@@ -647,9 +642,7 @@ type knownReplay struct {
 }
 
 var knownReplays = []knownReplay{
-	{"known-D2a", "known-D2a-let-arrow-statement-rejected", "let => 1", variant{}, "rejected", "accepted (valid sloppy-mode script)"},
 	{"known-D2b", "known-D2b-async-function-named-await-rejected", "function f(){ async function await(){} }", variant{}, "rejected", "accepted (valid sloppy-mode script)"},
-	{"known-D2c", "known-D2c-yield-newline-regexp-rejected", "function* f(){yield\n/x/}", variant{}, "rejected", "accepted (valid: ASI after yield)"},
 	{"known-D3a", "known-D3a-destructuring-declaration-without-initializer-accepted", "let [a];", variant{}, "passthrough", "an error"},
 	{"known-D3b", "known-D3b-pattern-as-update-or-compound-assignment-target-accepted", "[a] += 1; ++[b]", variant{}, "passthrough", "an error"},
 	{"known-D3c", "known-D3c-let-as-lexically-bound-name-accepted", "let [let] = 1", variant{}, "passthrough", "an error"},
@@ -658,10 +651,7 @@ var knownReplays = []knownReplay{
 	{"known-D6", "known-D6-export-star-as-eval-creates-strict-binding", "export * as eval from 'm'", variant{format: api.FormatESModule}, "invalidout", "valid module output (the input is a valid module)"},
 	{"known-D4c", "known-D4c-parentheses-added-behind-preserved-comment", "class Foo { foo =/**/() => super.x }", variant{}, "notfixed", "second Transform reproduces the first output"},
 	{"known-D8", "known-D8-commonjs-wrapper-in-esm-keeps-sloppy-identifiers", "return\nlet", variant{format: api.FormatESModule}, "unreparsable", "an error, or ESM output that is valid strict code"},
-	{"known-D9", "known-D9-postfix-newline-bracket-not-asi", "a++\n[]", variant{}, "rejected", "accepted: `a++` and `[]` are two statements (ASI: `a++[` is not derivable)"},
-	{"known-D2e", "known-D2e-yield-identifier-in-for-of-rejected", "function f(){ for (yield of x); }", variant{}, "rejected", "accepted (yield is an identifier in a sloppy non-generator function)"},
-	{"known-D2f", "known-D2f-using-arrow-statement-rejected", "using => 1", variant{}, "rejected", "accepted (arrow function with parameter using)"},
-	{"known-D3g", "known-D3g-reserved-word-shorthand-accepted", "var {import} = x", variant{}, "passthrough", "an error"},
+	{"known-D10", "known-D10-let-bracket-at-start-of-for-head", "for ((let)[x];;);", variant{}, "invalidout", "`for ((let)[x]; ; ) ;` (a for head must not start with `let [`: that is a lexical declaration)"},
 	{"known-D4d", "known-D4d-directive-string-escape-not-stable", "-0;\n'\\u{1F600}';\n", variant{}, "notfixed", "second Transform reproduces the first output"},
 	{"known-D4a", "known-D4a-infinity-statement-dropped-by-second-pass", "if (x) 1e400; else y", variant{}, "notfixed", "second Transform reproduces the first output"},
 	{"known-D4b", "known-D4b-semicolon-after-stripped-legal-comment", "if (1) {foo() //! test\n}", variant{mw: true}, "notfixed", "second Transform reproduces the first output"},
